@@ -1072,3 +1072,22 @@ Proof.
   intros F K HK g M labels D HM. apply (gennaro_reconstructs_dlog K HK g (lrows M labels) D).
   now apply lrows_wf.
 Qed.
+
+(* ---- stored auxiliary information: store / reload is the identity, also for empty peer maps ------- *)
+Lemma keys_eqb_refl : forall l, keys_eqb l l = true.
+Proof. induction l as [|x l IH]; cbn [keys_eqb]; [reflexivity|]. now rewrite N.eqb_refl, IH. Qed.
+
+Lemma aux_roundtrip : forall (A B : Type) (pks : list (N * A)) (cts : list (N * B)),
+  map fst pks = map fst cts -> aux_decode (aux_encode pks cts) = Some (pks, cts).
+Proof.
+  intros A B pks cts H. unfold aux_decode, aux_encode. cbn [ad_pks ad_cts].
+  now rewrite H, keys_eqb_refl.
+Qed.
+
+Lemma aux_roundtrip_empty : forall (A B : Type), aux_decode (aux_encode (@nil (N * A)) (@nil (N * B))) = Some ([], []).
+Proof. intros. now apply aux_roundtrip. Qed.
+
+(* an encoder that drops empty maps (omitempty) produces something the decoder refuses *)
+Lemma aux_absent_refused : forall (A B : Type) (c : option (list (N * B))),
+  aux_decode (mk_aux_dto (@None (list (N * A))) c) = None.
+Proof. intros. reflexivity. Qed.
